@@ -92,6 +92,28 @@ def covering(call):
     return res, (["ordered_covering"] if snap(table) != before else [])
 
 
+def tables_call(call):
+    """A direct call of a table minimiser on entries that carry sources."""
+    from rig.routing_table import RoutingTableEntry, Routes, minimise_table, minimise_tables
+    from rig.routing_table.ordered_covering import minimise as oc
+    from rig.routing_table.remove_default_routes import minimise as rdr
+    table = [RoutingTableEntry({Routes(r) for r in rs}, k, m, {None if x is None else Routes(x) for x in src})
+             for rs, k, m, src in call["table"]]
+    before = snap(table)
+    try:
+        if call["fn"] == "oc":
+            res = canon(oc(table, call["target"]))
+        elif call["fn"] == "rdr":
+            res = canon(rdr(table, call["target"]))
+        elif call["fn"] == "minimise_table":
+            res = canon(minimise_table(table, call["target"]))
+        else:
+            res = canon(dict(minimise_tables({(0, 0): table, (1, 0): list(table)}, call["target"])))
+    except Exception as e:
+        res = ["raised", type(e).__name__]
+    return res, (["tables." + call["fn"]] if snap(table) != before else [])
+
+
 def bitfield(call):
     """Define fields on a BitField (tags given as str / list / a set object that the caller REUSES on a second
     bit field when asked), assign values and the layout; report keys, masks and tags of both bit fields and
@@ -274,7 +296,7 @@ def boot_call(call):
     return res, (["boot.sv_overrides"] if snap(given) != before else [])
 
 
-KINDS = dict(boot=boot_call, reuse=reuse, chain=chain, covering=covering, bitfield=bitfield, controller=controller, machine=machine_defaults)
+KINDS = dict(tables=tables_call, boot=boot_call, reuse=reuse, chain=chain, covering=covering, bitfield=bitfield, controller=controller, machine=machine_defaults)
 
 if __name__ == "__main__":
     import implutil
